@@ -25,7 +25,7 @@ class C19(pure.Spec):
     module = "Properties.C19"
     theorems = ["C19_advance_closed_form", "C19_fail_run_delays", "C19_gives_up_after_max_count",
                 "C19_never_gives_up_when_zero", "C19_fatal_ends_at_once", "C19_reset_after_success",
-                "C19_no_request_lost", "C19_good_connection_serves_all"]
+                "C19_no_request_lost", "C19_good_connection_serves_all", "C19_client_never_panics"]
     crate = "app"
     binary = "vh-app"
     design_ref = "DESIGN.md §4 C19"
